@@ -166,6 +166,7 @@ pub fn case_fn(sub: &str, case: &Case, stats: &mut Stats) -> Result<(), String> 
     let reps = match sub {
         "seeds" | "regress" => 64,
         _ if merged => 12,
+        "inputs-case" => 8,
         _ => 3,
     };
     for _ in 0..reps {
@@ -281,6 +282,21 @@ fn run(ctx: &mut Ctx) {
         count_pool(c, st);
         case_fn(s, c, st)
     });
+
+    // case variants under -i: spellings that differ only by case, including letters whose
+    // lower-casing is refused (length-changing or unknown to the engine) — order / duplicates /
+    // hash seeds must not decide which spelling survives
+    let total_c = ctx.tier.pick(10_000, 150_000);
+    let strat_c = move || {
+        (case_strategy(&["cased"], false, W_CASE, 6, 3, fix), vec(any::<u16>(), 0..8))
+            .prop_map(|(mut c, perm)| {
+                c.cfg.ignore_case = true;
+                c.extra = json!({"pool": c.extra["pool"], "perm": perm});
+                c
+            })
+            .boxed()
+    };
+    ctx.generated("inputs-case", &strat_c, total_c, &|s, c, st| case_fn(s, c, st));
 
     // crossing families: the shape on which equivalent states have different edge orders
     let syms = ["a", "b", "c", "d", "1", "2", "x", "y"];
